@@ -35,7 +35,7 @@ FILE_PROPS = {
     "src/bit_vector.rs": ["C01", "C10", "C19", "C09", "C11"],
     "src/bit_vector/rank_support.rs": ["C01", "C19", "C06"],
     "src/bit_vector/select_support.rs": ["C01", "C19", "C06"],
-    "src/sparse_vector.rs": ["C02", "C15", "C16", "C10", "C09", "C11"],
+    "src/sparse_vector.rs": ["C02", "C15", "C16", "C10", "C09", "C11", "C07"],
     "src/rl_vector.rs": ["C03", "C16", "C10", "C09", "C11"],
     "src/rl_vector/index.rs": ["C03", "C06"],
     "src/wavelet_matrix.rs": ["C04", "C09", "C06"],
